@@ -962,7 +962,19 @@ func callBuiltin(caller *frame, callpos token.Pos, fn *ssa.Builtin, args []value
 			return arg0
 		}
 		// append([]T, ...[]T) []T
-		return append(args[0].([]value), args[1].([]value)...)
+		a0 := args[0].([]value)
+		res := append(a0, args[1].([]value)...)
+		if caller != nil && caller.i.ex != nil && caller.i.ex.track != nil {
+			tr := caller.i.ex
+			if len(res) > 0 && (cap(a0) == 0 || &res[0] != &a0[:1][0]) {
+				tr.noteFreshSlice(res) // reallocated: new backing array
+			} else if len(res) > len(a0) && !tr.track.fresh[&res[len(a0)]] {
+				// in-place append into a shared backing array
+				tr.track.Shared = append(tr.track.Shared, "append in place in "+caller.fn.String())
+				tr.Note("shared-write", "append in place in "+caller.fn.String())
+			}
+		}
+		return res
 
 	case "copy": // copy([]T, []T) int or copy([]byte, string) int
 		src := args[1]
